@@ -1056,23 +1056,43 @@ func main() {
 			nw = 1 + runs/8
 		}
 		per := (runs + nw - 1) / nw
-		outs := make([]*workerOut, nw)
-		froms := make([]int, nw)
+		// jobs: consecutive run ranges, one worker process each. Back end B leaves goroutines of the library under
+		// test behind in every run (TreeCache watchers that nobody will ever receive from), so its processes are
+		// kept short: many processes of a few thousand runs instead of one per worker slot.
+		chunk := per
+		if b.Bubble && chunk > 4000 {
+			chunk = 4000
+		}
+		type job struct{ from, to int }
+		var jobs []job
+		for f := 0; f < runs; f += chunk {
+			t := f + chunk
+			if t > runs {
+				t = runs
+			}
+			jobs = append(jobs, job{f, t})
+		}
+		outs := make([]*workerOut, len(jobs))
+		froms := make([]int, len(jobs))
 		var wg sync.WaitGroup
 		t0 := time.Now()
-		for w := 0; w < nw; w++ {
+		sem := make(chan struct{}, nw)
+		for ji := range jobs {
 			wg.Add(1)
-			go func(w int) {
+			sem <- struct{}{}
+			go func(ji int) {
 				defer wg.Done()
-				from, to := w*per, (w+1)*per
-				if to > runs {
-					to = runs
+				defer func() { <-sem }()
+				from, to := jobs[ji].from, jobs[ji].to
+				froms[ji] = from
+				jsecs := secs
+				if per > 0 {
+					jsecs = secs * float64(to-from) / float64(per)
 				}
-				froms[w] = from
 				env := workerEnv(b, prop, "VW_MODE=search", fmt.Sprintf("VW_SEED=%d", seed), fmt.Sprintf("VERIF_SEED=%d", seed),
-					fmt.Sprintf("VW_FROM=%d", from), fmt.Sprintf("VW_TO=%d", to), fmt.Sprintf("VW_SECONDS=%g", secs), "VW_KNOWN="+knownEnv(prop))
-				outs[w] = runWorker(bb.path, env, filepath.Join(scratch, fmt.Sprintf("res-%d-%d.json", bi, w)), time.Duration(secs+600)*time.Second)
-			}(w)
+					fmt.Sprintf("VW_FROM=%d", from), fmt.Sprintf("VW_TO=%d", to), fmt.Sprintf("VW_SECONDS=%g", jsecs), "VW_KNOWN="+knownEnv(prop))
+				outs[ji] = runWorker(bb.path, env, filepath.Join(scratch, fmt.Sprintf("res-%d-%d.json", bi, ji)), time.Duration(jsecs+600)*time.Second)
+			}(ji)
 		}
 		wg.Wait()
 		logf("batch %s/%s cfg=%q: %d workers done in %.1fs", b.Pkg, b.Scen, b.Cfg, nw, time.Since(t0).Seconds())
